@@ -512,17 +512,20 @@ def builtin_transport_sessions(base):
     StreamTransport): whatever ends the session — a clean exit, the stream ending between two
     lines or inside a line while listening, a read failure — leaving the context closes the
     stream exactly once, saves the final registry and leaves no task behind."""
+    from aiomysensors.model.message import Message
     from aiomysensors.transport import StreamTransport
     from props.c17 import FakeWriter
 
     fs, n = [], 0
-    for kind in ("clean-exit", "eof-at-line-boundary", "eof-inside-line", "read-oserror"):
+    for kind in ("clean-exit", "eof-at-line-boundary", "eof-inside-line", "read-oserror", "write-side-broken"):
         for with_persistence in (False, True):
             n += 1
             loop = VLoop()
             loop.set_default_executor(InlineExecutor())
             path = os.path.join(base, f"bt{n}.json")
-            w = FakeWriter()
+            # write-side-broken: the first write's drain fails and so does every later drain
+            # until another write (the connection is gone) — leaving the context must still close
+            w = FakeWriter(fail_drain_at=(1,)) if kind == "write-side-broken" else FakeWriter()
             holder = {}
 
             class T(StreamTransport):
@@ -547,6 +550,9 @@ def builtin_transport_sessions(base):
                             rd.set_exception(ConnectionResetError("reset by peer"))
                         agen = gw.listen()
                         await agen.__anext__()
+                        if kind == "write-side-broken":
+                            await agen.aclose()
+                            await gw.send(Message(1, 255, 3, 0, 13, ""), message_buffer=False)
                         if kind != "clean-exit":
                             await agen.__anext__()
                         await agen.aclose()
@@ -561,7 +567,7 @@ def builtin_transport_sessions(base):
             finally:
                 loop.close()
             want_exc = {"clean-exit": type(None), "eof-at-line-boundary": ex.TransportReadError, "eof-inside-line": ex.TransportReadError,
-                        "read-oserror": ex.TransportFailedError}[kind]
+                        "read-oserror": ex.TransportFailedError, "write-side-broken": ex.TransportFailedError}[kind]
             problems = []
             if not isinstance(exc, want_exc):
                 problems.append(f"{type(exc).__name__ if exc else 'no error'} left the context (expected {want_exc.__name__})")
@@ -777,6 +783,57 @@ def two_gateways(base):
     return list(seen.values())[:2], n
 
 
+def import_in_session(base):
+    """Inside a session the application calls the public Persistence.load(other) — a one-off import
+    of another file, which may be missing.  Whatever that call does, "the file" of the property
+    stays the configured one: the next periodic save and the final save write the registry there."""
+    fs, n = [], 0
+    for other in ("missing", "present"):
+        n += 1
+        loop = VLoop()
+        loop.set_default_executor(InlineExecutor())
+        log: list = []
+        pa, pb = os.path.join(base, f"imp{n}a.json"), os.path.join(base, f"imp{n}b.json")
+        if other == "present":
+            with open(pb, "w") as f:
+                f.write("{}")
+        seen_at = {}
+
+        def read_a():
+            try:
+                with open(pa) as f:
+                    return sorted(int(x) for x in json.load(f))
+            except Exception as e:  # noqa: BLE001
+                return f"unreadable {type(e).__name__}"
+
+        async def main():
+            gw = Gateway(LTransport(log, None, None, 0), Config(persistence_file=pa))
+            async with gw:
+                gw.nodes[1] = Node(1, 17, "2.0")
+                await gw.persistence.load(pb)
+                gw.nodes[2] = Node(2, 17, "2.0")
+                await asyncio.sleep(SAVE_INTERVAL + 1)
+                seen_at["tick"] = read_a(), sorted(gw.nodes)
+                gw.nodes[3] = Node(3, 17, "2.0")
+            seen_at["exit"] = read_a(), sorted(gw.nodes)
+            await asyncio.sleep(0)
+            return [t for t in asyncio.all_tasks() if t is not asyncio.current_task() and not t.done()]
+
+        try:
+            left = loop.run_until_complete(main())
+        finally:
+            loop.close()
+        for when in ("tick", "exit"):
+            saved, reg = seen_at[when]
+            if saved != reg:
+                fs.append({"kind": "oracle", "sig": "C16:import-in-session",
+                           "desc": f"after Persistence.load(<another, {other} file>) inside the session the configured file holds {saved} at the {'first periodic save' if when == 'tick' else 'exit'}, the registry {reg}",
+                           "case": {"other": other}})
+        if left:
+            fs.append({"kind": "oracle", "sig": "C16:import-in-session", "desc": f"{len(left)} task(s) still running", "case": {"other": other}})
+    return fs[:1], n
+
+
 def run(ctx, model_available=True):
     rng = rng_for(ctx.seed, "C16")
     base = tempfile.mkdtemp(prefix="amsverif_c16_")
@@ -897,12 +954,15 @@ def run(ctx, model_available=True):
     tf, tn = two_gateways(base)
     failures.extend(tf)
     dist["two_gateway_runs"] = tn
+    jf, jn = import_in_session(base)
+    failures.extend(jf)
+    dist["import_in_session_runs"] = jn
     shutil.rmtree(base, ignore_errors=True)
     seen = {}
     for f in failures:
         seen.setdefault((f["kind"], f["sig"]), f)
     return {
-        "evaluations": dist["scenarios"] + bn + mn + tn,
+        "evaluations": dist["scenarios"] + bn + mn + tn + jn,
         "distinct_nontrivial": len(kinds),
         "rule": "the real Gateway context with persistence on a virtual-clock event loop with an inline executor: the owning task cancelled (task.cancel()) or timed out (asyncio.timeout) in the body 0..13 iterations after entering and after 900 / 1800 s; a second session on the same Gateway object (after a clean exit, a raising body, a failed connect; file edited between the sessions or not; 0 s .. 2 h); exit after k = 0..12 loop iterations x {clean, body raises, disconnect raises, both, connect raises} x {instant, slow} transport, and bodies lasting 1 s .. 3 h of virtual time; observed: exception leaving the context, tasks alive afterwards, file vs final registry, disconnect count, virtual times of the periodic saves; distinct = (k, wait, fault flags, saver cancelled inside a save?, exception class)",
         "samples": [str({k: v for k, v in scs[7].items() if k in ('k', 'wait', 'connect_fails', 'body_raises', 'disconnect_fails')})],
